@@ -66,6 +66,7 @@ Lemma addMsg_324 : forall m b, m_command m = str_324 -> addMsg m b = st_do324 m 
 Lemma addMsg_329 : forall m b, m_command m = str_329 -> addMsg m b = st_do329 m (pre_n2h m b). Proof. disp. Qed.
 Lemma addMsg_332 : forall m b, m_command m = str_332 -> addMsg m b = st_do332 m (pre_n2h m b). Proof. disp. Qed.
 Lemma addMsg_367 : forall m b, m_command m = str_367 -> addMsg m b = st_do367 m (pre_n2h m b). Proof. disp. Qed.
+Lemma addMsg_005 : forall m b, m_command m = str_005 -> addMsg m b = pre_n2h m b. Proof. disp. Qed.
 Lemma addMsg_366 : forall m b, m_command m = str_366 -> addMsg m b = pre_n2h m b. Proof. disp. Qed.
 
 Lemma pre_n2h_server c args b : pre_n2h (Msg SERVER c args) b = b.
